@@ -10,7 +10,7 @@ import (
 )
 
 func (p *PcClient) stopProcess(name string) error {
-	url := fmt.Sprintf("http://%s/process/stop/%s", p.address, name)
+	url := fmt.Sprintf("http://%s/process/stop/%s", p.address, pathSegment(name))
 	req, err := http.NewRequest(http.MethodPatch, url, nil)
 	if err != nil {
 		return err
